@@ -553,6 +553,7 @@ fn run_case(out: &mut impl Write, text: &str, shell: Shell, o: &Opts) -> std::io
             writeln!(buf, "{}", s)?;
         }
         if want(o, "subraw") {
+            stage.set("subraw");
             // every within-word regex: its raw automaton and what minimize() makes of it
             let mut subs: BTreeMap<usize, &Regex> = BTreeMap::new();
             collect_pool(&r, &pool, &mut subs);
